@@ -21,7 +21,23 @@ fn main() {
                 eprintln!("unknown property {}", args[2]);
                 std::process::exit(2)
             };
-            let code = driver::run_parent(&meta, &args[3], seed);
+            // seconds-long replay tier: saved witnesses of earlier findings and mutants
+            let mut n_regress = 0;
+            let dir = format!("{}/replays/regress", driver::VERIF_DIR);
+            if let Ok(rd) = std::fs::read_dir(&dir) {
+                let mut files: Vec<_> = rd.filter_map(|e| e.ok()).map(|e| e.path()).filter(|p| p.file_name().and_then(|n| n.to_str()).map_or(false, |n| n.starts_with(&format!("{}-", args[2])) && n.ends_with(".json"))).collect();
+                files.sort();
+                for f in files {
+                    let code = checks::replay(f.to_str().unwrap());
+                    if code == 1 {
+                        std::process::exit(1);
+                    }
+                    if code == 0 {
+                        n_regress += 1;
+                    }
+                }
+            }
+            let code = driver::run_parent(&meta, &args[3], seed, n_regress);
             std::process::exit(code);
         }
         "worker" => {
@@ -38,6 +54,7 @@ fn main() {
                 total: args[5].parse().unwrap(),
                 seed: args[6].parse().unwrap(),
                 cases: args[7].parse().unwrap(),
+                shrink_iters: 600,
             };
             let report = checks::run_worker(&wa);
             println!("REPORT {}", serde_json::to_string(&report).unwrap());
